@@ -62,8 +62,12 @@ fn accepted_fields(b: &Bdd) -> [String; 3] {
 }
 fn dash3() -> [String; 3] { [s("-"), s("-"), s("-")] }
 
+/// every case runs under a guard: a panic of the harness itself is the observation `harness-panic`, never the death of the generator
 pub fn run(key: &str, a: &[String], out: &mut Out) {
     out.begin(key, a);
+    if catch(|| run_inner(key, a, &mut *out)).is_none() { out.case(key, a, &[s("harness-panic")]); }
+}
+fn run_inner(key: &str, a: &[String], out: &mut Out) {
     match key {
         "C13.text" | "C13.bytes" => {
             let data = unhex(&a[0]);
